@@ -282,6 +282,36 @@ def cycle_program(rng, evidence=True):
     return prog
 
 
+def negcycle_program(rng, evidence=True):
+    """Profile for C02: three to five nullary predicates with 1-3 clauses each over each other and 2-3 probabilistic
+    facts, body literals on predicates negated with probability 0.3 - cycles through negation next to (and mixed
+    with) positive cycles, reached directly, below an open positive cycle, or only in some worlds."""
+    prog = []
+    nf = rng.randint(2, 3)
+    facts = [("f%d" % i, ()) for i in range(nf)]
+    for a in facts:
+        prog.append(("fact", rng.choice(PROBS), a))
+    k = rng.randint(3, 5)
+    preds = [("n%d" % i, ()) for i in range(k)]
+    rules = []
+    for p in preds:
+        for _ in range(rng.randint(1, 3)):
+            body = []
+            for _ in range(rng.randint(1, 2)):
+                if rng.random() < 0.6:
+                    body.append((not (rng.random() < 0.3), rng.choice(preds)))
+                else:
+                    body.append((not (rng.random() < 0.15), rng.choice(facts)))
+            rules.append(("rule", p, body))
+    rng.shuffle(rules)
+    prog += rules
+    for q in rng.sample(preds, rng.randint(1, 2)):
+        prog.append(("query", q))
+    if evidence and rng.random() < 0.25:
+        prog.append(("evidence", rng.choice(preds + facts), rng.random() < 0.5))
+    return prog
+
+
 def programs(seed, n, **kw):
     rng = random.Random(seed)
     g = Gen(rng, **kw)
@@ -290,7 +320,9 @@ def programs(seed, n, **kw):
     while len(out) < n and tries < n * 20:
         tries += 1
         r = rng.random()
-        if not g.neg_cycles and g.recursion and r < 0.25:
+        if g.neg_cycles and r < 0.5:
+            p = negcycle_program(rng, evidence=g.evidence)
+        elif not g.neg_cycles and g.recursion and r < 0.25:
             p = graph_program(rng, evidence=g.evidence, negation=g.negation)
         elif not g.neg_cycles and g.recursion and r < 0.4:
             p = cycle_program(rng, evidence=g.evidence)
